@@ -120,13 +120,13 @@ static void verify_frame(const char* what, const uint8_t* f, size_t fsz, const u
 }
 
 /* ---------------------------------------------------------------- external producer */
-typedef struct { vrng* r; const parsecfg* C; int mode; long calls; long failed; uint32_t failMask; int maxSeqs; } prodstate;   /* mode 0 ok, 1 error, 2 too many, 3 zero seqs for non-empty; failMask: which of the
+typedef struct { vrng* r; const parsecfg* C; int mode; long calls; long failed; uint32_t failMask; int maxSeqs; int cyclic; } prodstate;   /* mode 0 ok, 1 error, 2 too many, 3 zero seqs for non-empty; failMask: which of the
                                           first 32 calls fail (later ones follow bit 31); maxSeqs >= 0: at most that many sequences per block, the rest of the block is literals of the delimiter */
 static size_t producer(void* st, ZSTD_Sequence* outSeqs, size_t outSeqsCapacity, const void* src, size_t srcSize, const void* dict, size_t dictSize, int level, size_t windowSize)
 {
     prodstate* P = (prodstate*)st; (void)dict; (void)dictSize; (void)level; P->calls++;
     if (getenv("VERIF_C17_TRACE")) fprintf(stderr, "producer call %ld srcSize=%zu mode=%d maxSeqs=%d mask=%08x\n", P->calls, srcSize, P->mode, P->maxSeqs, P->failMask);
-    {   int const failsNow = P->mode != 0 && ((P->failMask >> (P->calls - 1 > 31 ? 31 : P->calls - 1)) & 1) && srcSize > 0;
+    {   int const failsNow = P->mode != 0 && ((P->failMask >> (P->cyclic ? (P->calls - 1) % 32 : P->calls - 1 > 31 ? 31 : P->calls - 1)) & 1) && srcSize > 0;
         if (failsNow) { P->failed++; if (P->mode == 1) return ZSTD_SEQUENCE_PRODUCER_ERROR; if (P->mode == 2) return outSeqsCapacity + 1; return 0; } }
     parsecfg C = *P->C; C.explicitDelims = 1; C.blockMax = srcSize ? srcSize : 1; C.window = V_MIN(C.window, windowSize); C.dictLen = 0; C.dict = NULL;
     seqvec v = { 0, 0, 0 }; long st2[4] = { 0, 0, 0, 0 };
@@ -216,8 +216,12 @@ static void run_positive(long idx)
     } else {
         prodstate P; P.r = &r; P.C = &C; P.mode = vr_chance(&r, 1, 2) ? 0 : (int)vr_range(&r, 1, 3); P.calls = 0; P.failed = 0;
         P.failMask = vr_chance(&r, 1, 4) ? 0xFFFFFFFFu : vr_chance(&r, 1, 2) ? (0xFFFFFFFFu << (1 + vr_u(&r, 4))) : (uint32_t)vr_next(&r);     /* always / works for the first 1..4 blocks then fails / per-block pattern */
-        P.maxSeqs = vr_chance(&r, 1, 3) ? (int)vr_u(&r, 7) : vr_chance(&r, 1, 2) ? -2 : -1;
-        int const fallback = (int)vr_u(&r, 2);
+        P.maxSeqs = vr_chance(&r, 1, 3) ? (int)vr_u(&r, 7) : vr_chance(&r, 1, 2) ? -2 : -1; P.cyclic = 0;
+        int fb = -1;
+        if ((idx % 8) == 5) {   /* stratum "hand-over": working and failing blocks alternate through the whole frame (cyclic pattern), 0..6 sequences per working block, fallback on:
+                                  * every hand-over between the producer's blocks and the internal parser's blocks depends on the repeat-offset history left by the other */
+            P.mode = (int)vr_range(&r, 1, 3); P.failMask = (uint32_t)vr_next(&r) | 0x2u; P.cyclic = 1; P.maxSeqs = -2; fb = 1; }
+        int const fallback = fb >= 0 ? fb : (int)vr_u(&r, 2);
         ZSTD_registerSequenceProducer(c, &P, producer);
         ZSTD_CCtx_setParameter(c, ZSTD_c_enableSeqProducerFallback, fallback); if (getenv("VERIF_C17_NOFAIL")) P.failMask = 0; if (getenv("VERIF_C17_MAXSEQ")) P.maxSeqs = atoi(getenv("VERIF_C17_MAXSEQ")); if (getenv("VERIF_C17_LEVEL")) ZSTD_CCtx_setParameter(c, ZSTD_c_compressionLevel, atoi(getenv("VERIF_C17_LEVEL")));
         ZSTD_CCtx_setParameter(c, ZSTD_c_validateSequences, 1);
